@@ -286,6 +286,40 @@ def run_c10(prop, tier):
                 if sum(1 for v in merged["violations"] if v["class"] == cls) < 2:
                     merged["violations"].append({"class": cls, "detail": dict(session=s["name"], commands=sent, stderr=err[-800:], valgrind=True,
                                                                               rounds=[[a, b, c, d] for (a, b, c, d) in s["rounds"]], pre=s["pre"])})
+        # two searches of the same position in one session, the second deeper, without `position` in between:
+        # the second starts from a warm table on search-stack entries the first never reached. Plain (-O1) binary,
+        # oracle = crash / missing bestmove.
+        plain = Runner(exe_rel, dict(os.environ))
+        dg_positions = [("startpos", "position startpos"), ("kiwipete", "position fen r3k2r/p1ppqpb1/bn2pnp1/3PN3/1p2P3/2N2Q1p/PPPBBPPP/R3K2R w KQkq - 0 1"),
+                        ("middlegame1", "position fen r1bq1rk1/pp2bppp/2n1pn2/3p4/2PP4/2N1PN2/PP2BPPP/R1BQ1RK1 w - - 0 9"),
+                        ("italian", "position startpos moves e2e4 e7e5 g1f3 b8c6 f1c4 f8c5"), ("quiesce", "position fen " + FEN_QUIESCE),
+                        ("endgame", "position fen 8/2p5/3p4/KP5r/1R3p1k/8/4P1P1/8 w - - 0 1")]
+        dg_sessions = []
+        for name, pos in dg_positions:
+            for d1, d2 in (((4, 7), (6, 9)) if tier == "quick" else ((4, 7), (5, 8), (6, 9), (6, 10), (7, 10))):
+                dg_sessions.append(dict(name="%s|go depth %d|go depth %d (no position between)" % (name, d1, d2), pre=[],
+                                        rounds=[(pos, "go depth %d" % d1, False, []), ("isready", "go depth %d" % d2, False, [])]))
+
+        def dgone(s):
+            kind, where, err, sent = plain.run(s["rounds"], pre=s["pre"], timeout=600)
+            return (s, kind, where, err, sent)
+
+        with ThreadPoolExecutor(driver.NCPU) as ex:
+            dres = list(ex.map(dgone, dg_sessions))
+        dn = 0
+        for s, kind, where, err, sent in dres:
+            dn += 1
+            merged["transitions"] += len(sent)
+            if kind:
+                cls = "C10:%s:second_deeper_go_on_same_position" % kind
+                merged["violation_classes"][cls] = merged["violation_classes"].get(cls, 0) + 1
+                if sum(1 for v in merged["violations"] if v["class"] == cls) < 2:
+                    merged["violations"].append({"class": cls, "detail": dict(session=s["name"], commands=sent, stderr=err[-800:], plain=True,
+                                                                              rounds=[[a, b, c, d] for (a, b, c, d) in s["rounds"]], pre=s["pre"])})
+        merged["subspaces"].append(dict(name="second, deeper go on the same position (plain binary)", bound="6 positions x depth pairs, no `position` between the two go commands",
+                                        states=dn, transitions=dn * 4, exhaustive=True))
+        merged["states"] += dn
+        merged["counters"]["double_go_sessions"] = dn
         merged["subspaces"].append(dict(name="valgrind memcheck subset", bound="book sessions + 4 boundary sessions under memcheck (uninitialised value use)", states=vn, transitions=vn, exhaustive=True))
         merged["states"] += vn
         merged["counters"]["sessions"] = n
@@ -302,7 +336,7 @@ def run_c10(prop, tier):
 
 def replay_c10(rec, verbose=False):
     d = rec["detail"]
-    exe = vbuild.engine_binary("vg" if d.get("valgrind") else "asan")
+    exe = vbuild.engine_binary("vg" if (d.get("valgrind") or d.get("plain")) else "asan")
     wrapper = ["valgrind", "-q", "--error-exitcode=0", "--leak-check=no"] if d.get("valgrind") else []
     bookdir = os.path.join(TMP, "c10books-replay")
     os.makedirs(bookdir, exist_ok=True)
